@@ -31,7 +31,7 @@ def run(res, tier):
     conc.concurrent_check(
         res, 'C11', tier, 'c11.cpp', 'wait', RULES,
         quick_args=['--mode', 'dfs', '--pb', '2', '--wb', '1', '--max-exec', '30000'],
-        thorough_args=['--thorough', '--mode', 'dfs', '--pb', '3', '--wb', '1', '--max-exec', '400000'],
+        thorough_args=['--thorough', '--mode', 'dfs', '--pb', '3', '--wb', '1', '--max-exec', '120000'],
         search_args=[['--thorough', '--mode', 'dfs', '--pb', '3', '--wb', '1', '--max-exec', '150000'],
                      ['--thorough', '--mode', 'random', '--random-runs', '20000']],
         unmodelled_ok=NOT_EXHIBITABLE)
@@ -42,7 +42,7 @@ def run(res, tier):
         os.environ['ASAN_OPTIONS'] = 'detect_stack_use_after_return=1:detect_leaks=0'
         try:
             stats, _, violations = conc.run_harness(
-                binary, ['--thorough', '--mode', 'dfs', '--pb', '2', '--wb', '1', '--max-exec', '40000', '--seed', str(C.seed())])
+                binary, ['--thorough', '--mode', 'dfs', '--pb', '2', '--wb', '1', '--max-exec', '15000', '--seed', str(C.seed())])
             res.coverage['asan'] = stats
             for v in violations[:3]:
                 scen, msg = conc.violation_key(v)
